@@ -32,7 +32,7 @@ pub fn def() -> CheckDef {
 }
 
 pub fn flags() -> Flags {
-    Flags { property: "C15", track_len: true, ..Default::default() }
+    Flags { property: "C15", track_len: true, scope: &["conservation."], ..Default::default() }
 }
 
 fn body(rng: &mut Rng, model: &Model, version: u16, nonce: &mut u32) -> Vec<Op> {
